@@ -9,10 +9,11 @@ from vlib.fsmt.equiv import Prog, check_equiv, replay_equiv
 
 class Case:
     def __init__(self, name, src, entry, sizes, apply, group, absent=(), include_locals=(), unwind=5, must_change=True,
-                 note='', raise_is_violation=False):
+                 note='', raise_is_violation=False, custom=None):
         self.name, self.src, self.entry, self.sizes, self.apply, self.group = name, src, entry, sizes, apply, group
         self.absent, self.include_locals, self.unwind, self.must_change, self.note = absent, include_locals, unwind, must_change, note
         self.raise_is_violation = raise_is_violation
+        self.custom = custom      # optional callable(case, sizes) -> record; replaces the Fortran-vs-Fortran obligation
 
 
 CASES = []
@@ -24,6 +25,12 @@ def _work(item):
     c = CASES[ci]
     sizes = c.sizes[si]
     rec = {'case': c.name, 'group': c.group, 'sizes': sizes}
+    if c.custom is not None:
+        try:
+            rec.update(c.custom(c, sizes))
+        except Exception as ex:  # pylint: disable=broad-except
+            rec.update(verdict='harness-exception', why=f'{type(ex).__name__}: {str(ex)[:300]}', tb=traceback.format_exc()[-800:])
+        return rec
     try:
         p1 = Prog.from_source(c.src, c.entry, absent=c.absent)
         p2 = Prog.from_source(c.src, c.entry, absent=c.absent)
